@@ -583,7 +583,7 @@ func (p *prover) lenSummaryFacts(s *factSet, t term, seen map[term]bool) {
 // Rule C07.R1c checks that the rejecting branch exists.
 
 var f6ConfigLower = map[string]int64{
-	"transform/ttruncate.Config.MaxLength":      1,
+	"transform/ttruncate.Config.MaxLength":       1,
 	"transform/textractspecial.Config.MaxLength": 1,
 }
 
